@@ -8,8 +8,9 @@ LEVEL = "exploration"
 RULE = (
     "operation sequences (length <= 8, shrunk by Hypothesis) from a seeded stateful machine over ONE checkpoint file and up to two "
     "live Aspire 'processes': new process, fit(data A | B, checkpoint_path?, overwrite?), enter/exit (nested) auto_checkpoint, "
-    "sample(importance | SMC, explicit path | inside the context | no file, optionally crashed at a likelihood call), and "
-    "resume-from-file-then-sample as one atomic operation (optionally inside auto_checkpoint, as documented). Proposals are stub flows "
+    "sample(importance | minipcn SMC | emcee SMC, explicit path | inside the context | no file, optionally crashed at a likelihood "
+    "call), and resume-from-file-then-sample as one atomic operation (optionally inside auto_checkpoint, as documented; optionally "
+    "continuing with the OTHER SMC sampler, named at resume_from_file or at sample_posterior). Proposals are stub flows "
     "fitted to visibly different data, so 'which proposal' is unmistakable. Semantic oracle after EVERY operation, on the file as it is: "
     "if it holds a checkpoint, (a) the proposal LOADED FROM THE FILE must reproduce the stored log_q of the checkpoint's particles, "
     "(b) the stored configuration must name the sampler class recorded inside the checkpoint; at the end of every sequence (c) "
@@ -19,9 +20,9 @@ RULE = (
 )
 ASSUMPTIONS = ["stub proposal/kernel/model; sequences bounded at 8 operations, 2 live instances, 1 file",
                "a refit between resume_from_file and sample_posterior is the caller mixing proposals in memory and is not generated"]
-COMPONENTS = {"real": ["Aspire.fit / sample_posterior / auto_checkpoint / resume_from_file / save_config / save_flow", "MiniPCNSMC checkpointing",
+COMPONENTS = {"real": ["Aspire.fit / sample_posterior / auto_checkpoint / resume_from_file / save_config / save_flow", "MiniPCNSMC and EmceeSMC checkpointing",
                        "ImportanceSampler", "AspireFile / HDF5"],
-              "stub": ["SimFlow", "minipcn.Sampler", "analytic likelihood/prior"], "not_run": ["zuko/flowjax in this check", "blackjax"]}
+              "stub": ["SimFlow", "minipcn.Sampler", "emcee.EnsembleSampler", "analytic likelihood/prior"], "not_run": ["zuko/flowjax in this check", "blackjax"]}
 BUDGET_S = {"quick": 80, "thorough": 1200}
 
 
